@@ -36,13 +36,17 @@ def classify(case):
     if case.get("timed_out"):
         if re.search(r"\[\s*(\d{9,}|0x[0-9a-fA-F]{8,})\s*\]", case.get("source_lossy", "")):
             return "C09:no-answer-in-time:huge-fixed-hex-jump"
+        if "f(f(f(f(f(f(f(f(f(f(f(f(" in case.get("source_lossy", ""):
+            return "C09:no-answer-in-time:nested-function-calls"
         return "C09:no-answer-in-time"
     if o.get("panicked"):
         msg = re.sub(r"\b\d+\b", "N", o["panicked"]).split(";")[0][:120]
         return "C09:panic:" + msg
     v = " ".join(case.get("violations", []))
-    if "neither built nor ignored" in v:
-        return "C09:rule-dropped-silently:" + ("ast-depth-limit" if o.get("max_depth", 0) >= 3000 else "other")
+    if "neither built, nor ignored" in v:
+        return "C09:rule-dropped-silently:" + ("ast-depth-limit" if o.get("max_depth", 0) >= 3000 else ("no-error-at-all" if o.get("nerr", 1) == 0 else "errors-elsewhere"))
+    if "line/column" in v:
+        return "C09:line-column-does-not-designate-the-span-start"
     if "invalid regular expression" in v:
         return "C09:regexp-error-location-outside-the-regexp:" + str(case.get("cfg_name"))
     if "label span" in v:
